@@ -248,3 +248,20 @@ Theorem C11_source_absolute_width O (HO : Py.ops_ok O) stf (HS : A.stf_oracle O 
     (A.width_post (abs_width (root || ltr) stf cbx cbw (A.haxis l r w ml mr pl pr bl br pos))) (fun _ => False).
 Proof. exact (A.gen_absolute_width O HO stf HS root ltr l r w ml mr pl pr bl br pos cbx cby cbw cbh). Qed.
 Print Assumptions C11_source_absolute_width.
+
+(* ---- get_clearance of weasyprint/layout/float.py REGENERATED from the source, with
+   excluded_shape.margin_height() answered by the Box methods margin_height / border_height / padding_height
+   REGENERATED from formatting_structure/boxes.py (base/PyLink.v): for every list of placed floats (side, position,
+   box dimensions), clear value and position it returns None exactly when the model does, else a number == the
+   model's; so C11_clear_moves_below is about the source. *)
+Require WV.base.PyLink WV.gen.GenFloat WV.gen.GenBoxes WV.proofs.C11_gen_clearance.
+Module CL := WV.proofs.C11_gen_clearance.
+
+Theorem C11_source_get_clearance n (floats : list CL.pfloat) c py cm :
+  Py.run (PyLink.linked GenBoxes.GenBoxes_table (S (S (S n)))) GenFloat.get_clearance_body
+    [("context"%string, CL.vctx CL.pfloat CL.pf_shape (fun p => CL.dims_fields (CL.pf_d p)) floats);
+     ("box"%string, CL.vbox c py); ("collapsed_margin"%string, Py.VNum cm)]
+    (fun _ r => exists v, r = Some (CL.voq v) /\ CL.oq_eq v (get_clearance (map CL.pf_shape floats) c (py + cm)))
+    (fun _ => False).
+Proof. exact (CL.gen_get_clearance_linked n floats c py cm). Qed.
+Print Assumptions C11_source_get_clearance.
